@@ -1,8 +1,9 @@
 """pyfront targets for C10 (bundle conditions): one target per lookup table of the property's
 quantifier — every subset of the allowed names mapped to every injective index assignment among
-4 extra columns — times the constructor modes.  All targets of a class share one numbering, so
+4 extra columns, plus EVERY assignment (injective or not: two names may share a column) among the first
+2 columns — times the constructor modes.  All targets of a class share one numbering, so
 the proofs can compare the whole generated index with one list-generic model."""
-from itertools import permutations, combinations
+from itertools import permutations, combinations, product
 from pyfront.gen import Target
 from pyfront.interp import NetSym
 
@@ -14,10 +15,14 @@ TH = [f'th{i}' for i in range(M)]
 
 
 def lookups(names):
+    seen = set()
     for k in range(len(names) + 1):
         for sub in combinations(names, k):
-            for idx in permutations(range(M), k):
-                yield dict(zip(sub, idx))
+            for idx in list(permutations(range(M), k)) + list(product(range(2), repeat=k)):
+                key = tuple(zip(sub, idx))
+                if key not in seen:
+                    seen.add(key)
+                    yield dict(key)
 
 
 def coq_lookup(lk):
@@ -51,7 +56,8 @@ def reject(cls, lk):
 
 
 IVP_MODES = [(lk, pa) for lk in lookups(['t_0', 'u_0', 'u_0_prime']) for pa in ((False, True) if 'u_0_prime' not in lk else (False,))]
-BVP_MODES = list(lookups(['t_0', 'u_0', 't_1', 'u_1']))
+# t_0 and t_1 in one column would mean t_0 = t_1 in every row: not an admissible two-point problem
+BVP_MODES = [lk for lk in lookups(['t_0', 'u_0', 't_1', 'u_1']) if not ('t_0' in lk and 't_1' in lk and lk['t_0'] == lk['t_1'])]
 
 TARGETS = ([ivp_target(lk, pa, n) for n, (lk, pa) in enumerate(IVP_MODES)] +
            [bvp_target(lk, n) for n, lk in enumerate(BVP_MODES)] +
